@@ -96,6 +96,35 @@ Theorem C10_trie_cache_transparent :
 Proof. intros W WOK. exact (@cache_transparent W WOK). Qed.
 Print Assumptions C10_trie_cache_transparent.
 
+(* 1d. IntermediateRoot writes the LIVE objects and is idempotent.  After any history and an
+   IntermediateRoot the state is [Flushed]: the tries hold exactly what the live state shows,
+   including the withdraw queue, the statistics and the index it writes unconditionally -
+   so in-place edits of queued records made through GetWithdrawQueue() (op OEditWithdraw,
+   what staking/endblock.go and slash.go do) are persisted by the next root, and C10_reopen /
+   C10_reopen_any_commit hold for histories containing them.  On a flushed state a further
+   IntermediateRoot (either flag) changes no root and nothing the state shows.
+   _partial: "inserting IntermediateRoot ANYWHERE changes nothing later" is not a property of
+   the code: IntermediateRoot also finalises (touched empty accounts) and its flush deletes
+   zero-stake validators, so placement inside a transaction or before a zero-stake validator
+   is re-funded matters.  At points where nothing is left to finalise the harness compares
+   the same transactions with and without extra IntermediateRoot calls (family "ir"). *)
+Theorem C10_intermediate_root_transparent_partial :
+  forall (W : World) (WOK : WorldOk W) d s l de,
+    DbOk d -> Inv d s ->
+    let ds := crun (d, s) l in
+    let t := iroot (fst ds) de (snd ds) in
+    Inv (fst ds) t /\ Flushed t /\
+    forall de', roots (iroot (fst ds) de' t) = roots t /\ state_eq (fst ds) (iroot (fst ds) de' t) (fst ds) t.
+Proof. intros W WOK. exact (@iroot_transparent W WOK). Qed.
+Print Assumptions C10_intermediate_root_transparent_partial.
+
+(* bridge: every write the staking module makes through an object a StateDB getter handed out
+   is of a kind the next IntermediateRoot picks up from the live object (inventory regenerated
+   from staking/ on every run) *)
+Theorem C10_live_edits_persisted : forall r, In r live_edits -> live_edit_ok r = true.
+Proof. exact live_edits_classified. Qed.
+Print Assumptions C10_live_edits_persisted.
+
 (* 2. roots depend only on content: two StateDBs, reached by any two histories
    (any order and grouping of writes, any placement of Finalise /
    IntermediateRoot / Commit, either flag, even over different databases), that
